@@ -814,5 +814,113 @@ Proof.
   { destruct (done st) eqn:D; [|reflexivity]. apply (co_done st Ic) in D. destruct D; congruence. }
   constructor.
   - destruct Ic. constructor; unfold M, stopped in *; simpl in *; rewrite ?app_length; simpl; auto; try discriminate; try lia.
+    + rewrite co_w0. apply succ_mod. exact Hn0.
+    + intros _. repeat split; auto; intros; [lia|rewrite in_seq; lia].
+    + intros w Hw. rewrite in_seq in Hw. lia.
+    + rewrite seq_length. lia.
+    + split; [congruence|]. intros [?|?]; discriminate.
+    + intros [?|[?|?]]; discriminate.
+    + rewrite map_app, co_written0. replace (length (written st) + 1) with (S (length (written st))) by lia.
+      rewrite seq_S, map_app. simpl. rewrite Hcur. do 3 f_equal. lia.
+  - intros w Hw. apply reader_ok_frame2 with (st := st); auto; [|apply (ri_readers st I w Hw)].
+    intros _. apply (ro_fresh st w (ri_readers st I w Hw)). right. rewrite Erl. auto.
+  - intros w Hw. destruct (ri_writers st I w Hw).
+    match goal with |- writer_ok ?s _ => assert (G : wget s w = unblock (wget st w))
+      by (unfold wget; simpl; apply get_map_unblock) end.
+    assert (Hc : M st + 3 <= wseq (wget st w) + n) by (apply wo_coll0; [exact Gc|rewrite Ewl; auto]).
+    assert (Hm : w_idx st = M st mod n) by (apply (co_w st Ic)).
+    constructor; rewrite ?G, ?unblock_idx, ?unblock_seq, ?unblock_run; unfold M, wr_at in *; simpl;
+      rewrite ?app_length; simpl; auto; try lia; try discriminate.
+    + intros m Hm'. destruct (Nat.eq_dec m (length (written st))) as [->|N].
+      * rewrite Hm, get2_setrow_eq by exact Hw. rewrite app_nth2 by lia. rewrite Nat.sub_diag. simpl.
+        unfold wsched. simpl. reflexivity.
+      * rewrite Hm, get2_setrow_neq by (apply not_eq_sym; apply mod_window_neq; lia).
+        rewrite app_nth1 by lia. apply wo_pending0. lia.
+    + intros Hv. rewrite Hm, get2_setrow_neq by (apply not_eq_sym; apply mod_window_neq; lia).
+      rewrite app_nth1 by lia. auto.
+    + intros B. apply unblock_pc_run in B. rewrite app_nth1 by (destruct (wo_run0 B); lia). auto.
+    + intros B. destruct (unblock_not_blocked _ B).
+    + intros B. apply unblock_exit in B. destruct (wo_exit0 B). congruence.
+    + rewrite firstn_app. replace (wseq (wget st w) - length (written st)) with 0 by lia. simpl.
+      rewrite app_nil_r. exact wo_got0.
+Qed.
+
+Lemma task_pos_run_t : forall p, task_pos (run_t p) = p.
+Proof. intros. unfold run_t. destruct (_ <? _); reflexivity. Qed.
+Lemma task_pos_fin_t : forall p, task_pos (fin_t p) = p.
+Proof. intros. unfold fin_t. destruct (_ <? _); reflexivity. Qed.
+
+Lemma inv_CReadNext : forall st st', RingInv st -> step P st CReadNext = Some st' -> RingInv st'.
+Proof.
+  intros st st' I H. unfold step in H. cbv zeta in H.
+  grd H Gnw. grd H Gc. apply is_not_waiting_eq in Gnw.
+  destruct (rlist st) eqn:Erl; [|discriminate].
+  pose proof (ri_caller st I) as Ic.
+  assert (Hn0 : n <> 0) by lia.
+  assert (Hc : cpc st = CNext \/ (cpc st = CWork /\ W = 0)).
+  { apply orb_true_iff in Gc. destruct Gc as [G|G]; [left; apply is_cpc_eq; exact G|].
+    apply andb_true_iff in G. destruct G as [G1 G2]. apply is_cpc_eq in G1. apply Nat.eqb_eq in G2. auto. }
+  assert (Hfresh : forall w, w < R -> next_k st + 1 <= wseq (rget st w) + n).
+  { intros w Hw. apply (ro_fresh st w (ri_readers st I w Hw)). destruct Hc as [C|[C _]]; [auto|].
+    right. rewrite Erl. auto. }
+  assert (Hh : length (handed st) + n = next_k st + 1) by (apply (co_hwork st Ic); tauto).
+  assert (HM : 0 < W -> M st + n = next_k st + 1).
+  { intros HW. destruct Hc as [C|[_ C]]; [|lia]. apply (co_next st Ic C). exact HW. }
+  assert (Hwl : cpc st = CNext -> forall w, w < W -> In w (wlist st)) by (intros C; apply (co_next st Ic C)).
+  assert (Hnd : done st = false).
+  { destruct (done st) eqn:D; [|reflexivity]. apply (co_done st Ic) in D. destruct Hc as [C|[C _]], D; congruence. }
+  assert (Hr' : (r_idx st + 1) mod n = (next_k st + 1) mod n) by (rewrite (co_r st Ic); apply succ_mod; exact Hn0).
+  (* the position handed to the caller *)
+  assert (Hc' : task_pos (get2 (setrow (rtask st) (r_idx st) R (sched P (pos_at P (next_k st)))) ((r_idx st + 1) mod n) 0)
+                = pos_at P (length (handed st))).
+  { rewrite Hr', (co_r st Ic). rewrite get2_setrow_neq by (apply mod_window_neq; lia).
+    pose proof (co_K st Ic) as HK.
+    replace (length (handed st)) with (next_k st + 1 - n) by lia.
+    assert (E : (next_k st + 1) mod n = (next_k st + 1 - n) mod n).
+    { rewrite <- (mod_plus_n (next_k st + 1 - n) n Hn0). f_equal. lia. }
+    rewrite E. destruct (ri_readers st I 0 ltac:(lia)). pose proof (Hfresh 0 ltac:(lia)) as F0.
+    destruct (Nat.eq_dec (wseq (rget st 0)) (next_k st + 1 - n)) as [Q|Q].
+    - rewrite <- Q, ro_cur0. destruct (is_pc _ _); [apply task_pos_run_t|apply task_pos_fin_t].
+    - rewrite ro_old0 by lia. apply task_pos_fin_t. }
+  rewrite Hc' in H.
+  assert (Hrd : forall s w, rget (mkS (r_idx s) (w_idx s) (next_k s) (done s) (rtask s) (wtask s) (map unblock (rd st))
+                (wr s) (cpc s) (cwait s) (rlist s) (wlist s) (cur s) (handed s) (written s) (wgot s) (bailed s)) w
+                = unblock (rget st w)) by (intros; unfold rget; simpl; apply get_map_unblock).
+  assert (Readers : forall c' rl cu hd,
+     (c' = CWork -> rl = seq 0 R) -> c' <> CNext ->
+     forall w, w < R ->
+     reader_ok (mkS ((r_idx st + 1) mod n) (w_idx st) (S (next_k st)) (done st)
+                (setrow (rtask st) (r_idx st) R (sched P (pos_at P (next_k st)))) (wtask st) (map unblock (rd st))
+                (wr st) c' NotWaiting rl (wlist st) cu hd (written st) (wgot st) (bailed st)) w).
+  { intros c' rl cu hd Hrl Hcn w Hw. destruct (ri_readers st I w Hw). pose proof (Hfresh w Hw) as F.
+    assert (G : forall s, rget (mkS ((r_idx st + 1) mod n) (w_idx st) (S (next_k st)) (done st)
+                (setrow (rtask st) (r_idx st) R (sched P (pos_at P (next_k st)))) (wtask st) (map unblock (rd st))
+                (wr st) c' NotWaiting rl (wlist st) cu hd (written st) (wgot st) (bailed st)) s = unblock (rget st s))
+      by (intros; unfold rget; simpl; apply get_map_unblock).
+    constructor; rewrite ?G, ?unblock_idx, ?unblock_seq, ?unblock_run; simpl; auto; try lia.
+    + intros [A|[A B]]; [contradiction|]. exfalso. apply B. rewrite (Hrl A). apply in_seq. lia.
+    + intros q Hq. rewrite (co_r st Ic). destruct (Nat.eq_dec q (next_k st)) as [->|N].
+      * apply get2_setrow_eq. exact Hw.
+      * rewrite get2_setrow_neq by (apply not_eq_sym; apply mod_window_neq; lia). apply ro_pending0. lia.
+    + rewrite (co_r st Ic). rewrite get2_setrow_neq by (apply not_eq_sym; apply mod_window_neq; lia). exact ro_cur0.
+    + intros q Hq Hq'. rewrite (co_r st Ic).
+      rewrite get2_setrow_neq by (apply not_eq_sym; apply mod_window_neq; lia). apply ro_old0; lia.
+    + intros B. destruct (unblock_not_blocked _ B).
+    + intros B. apply unblock_exit in B. auto. }
+  assert (Writers : forall c' rl cu hd,
+     (c' = CWork) \/ (c' = CStopping) ->
+     forall w, w < W ->
+     writer_ok (mkS ((r_idx st + 1) mod n) (w_idx st) (S (next_k st)) (done st)
+                (setrow (rtask st) (r_idx st) R (sched P (pos_at P (next_k st)))) (wtask st) (map unblock (rd st))
+                (wr st) c' NotWaiting rl (wlist st) cu hd (written st) (wgot st) (bailed st)) w).
+  { intros c' rl cu hd Hcc w Hw. apply writer_ok_frame2 with (st := st); auto; [|apply (ri_writers st I w Hw)].
+    simpl. intros C A. destruct Hc as [C0|[_ C0]]; [|lia]. destruct A. apply Hwl; auto. }
+  destruct (pos_at P (length (handed st)) <? bmax P) eqn:Eb; inversion H; subst st'; clear H.
+  - (* a stripe is handed to the caller *)
+    apply Nat.ltb_lt in Eb.
+    assert (HhL : length (handed st) < L).
+    { destruct (Nat.lt_ge_cases (length (handed st)) L) as [Q|Q]; [exact Q|]. pose proof (pos_at_ge P _ Q). lia. }
+    constructor; [|apply Readers; [auto|discriminate]|apply Writers; auto].
+    destruct Ic. constructor; unfold M, stopped in *; cbn -[Nat.sub seq Nat.modulo]; auto; try discriminate; try lia.
 
 Show. Abort. End Inv.
